@@ -10,6 +10,8 @@ func dispatch(t *testing.T, sc scenario) result {
 		return runUtils(sc)
 	case 5:
 		return runJoin(t, sc)
+	case 8:
+		return runPrio1(t, sc)
 	default:
 		return result{verdict: "unknown-family"}
 	}
